@@ -1,7 +1,7 @@
 (* C16 — Bankruptcy is detected, clean and terminal.  Statements only; proofs in Proofs/BankruptProofs.v. *)
 From Coq Require Import Reals List Bool.
 Import ListNotations.
-Require Import BT.Num BT.Base BT.Records BT.Engine BT.Ops BT.Algos BT.Proofs.BankruptProofs.
+Require Import BT.Num BT.Base BT.Records BT.Engine BT.Ops BT.Algos BT.Proofs.TradeProofs BT.Proofs.BankruptProofs BT.Proofs.LiquidProofs.
 Local Open Scope R_scope.
 
 (* after root.update the flag is set iff it was set before or the freshly summed value of a
@@ -29,3 +29,14 @@ Theorem C16_terminal : forall (e : env RNumI) (i : nat) (tr tr1 : tree RNumI (as
   bt_loop e [i] tr = Ok tr1.
 Proof. exact bt_loop_skips_when_bankrupt. Qed.
 Print Assumptions C16_terminal.
+
+(* clean: the liquidation of a flat market-value strategy closes every position that has a value, for every commission
+   function and spread; a position whose value is exactly zero (zero price) is left as it is — known finding K5; for
+   nested trees the budget-based liquidation can leave positions open — known finding K13, refuted by witness in the
+   bankruptcy suite *)
+Theorem C16_liquidation_closes_flat_strategies_partial : forall (A : Type) (ks : list (node RNumI A)) (g : strat RNumI A) ks' g',
+  Forall (fun k => exists s, k = NSec s /\ current (g_now g) s) ks ->
+  flatten_kids false ks g = Ok (ks', g') ->
+  Forall2 (closed_or_worthless A) ks ks'.
+Proof. exact flatten_flat_closes. Qed.
+Print Assumptions C16_liquidation_closes_flat_strategies_partial.
